@@ -36,7 +36,8 @@ RULE = ("cases = generated message definitions x relocations (root / imported fi
         "a definition with >= 1 field; distinct = hash of the target definition text")
 ASSUMPTIONS = ["send_signal(type) has no class in hand and leaves version 0 (allowed there only)",
                "an edit that collides in 32 bits has probability 2^-32 and is re-checked with a second edit before being reported"]
-REQUIRE = {"relocations_compared": 300, "edits_compared": 500, "frames_captured": 150, "subprocess_hash_sets": 4}
+REQUIRE = {"relocations_compared": 300, "edits_compared": 500, "frames_captured": 150, "subprocess_hash_sets": 4,
+           "resend_frames_captured": 20}
 CASE_TIMEOUT = 240
 TYPES = ["int32", "double", "char", "uint8", "int16", "float", "int64", "uint16", "byte", "unsigned int", "long long"]
 
@@ -154,6 +155,8 @@ def gen_cases(tier, seed):
     n, nproc, nsend = (150, 6, 12) if tier == "quick" else (6000, 120, 48)
     cases = [{"mode": "stab", "seed": rng.getrandbits(40)} for _ in range(n)]
     cases += [{"mode": "proc", "seed": rng.getrandbits(40)} for _ in range(nproc)]
+    for i in range(4 if tier == "quick" else 60):
+        cases.append({"mode": "resend", "seed": rng.getrandbits(40), "tc": i % 2 == 1})
     for i in range(nsend):
         cases.append({"mode": "send", "seed": rng.getrandbits(40), "tc": i % 2 == 1, "chunk": i // 2, "nchunks": max(1, nsend // 2)})
     return cases
@@ -253,9 +256,90 @@ def run_case(case, tier):
                     diff = [n for n in s if s.get(n) != sets[0].get(n)]
                     V.append({"mech": "hash_depends_on_process", "detail": f"hashes differ between runs (PYTHONHASHSEED / cwd / entry point): {diff[:5]}"})
             return res
+        if case["mode"] == "resend":
+            return run_resend(case, res, rng, work)
         return run_send(case, res)
     finally:
         shutil.rmtree(work, ignore_errors=True)
+
+
+def run_resend(case, res, rng, work):
+    """one long-lived Client sends instances of successive edits of one definition (compiled and imported while it
+    stays connected): each outgoing header must carry the hash of the definition of the object being sent"""
+    import importlib.util
+    import sys
+    import ctypes
+    from vf.checks.c08 import Peer
+    from pyrtma.client import Client
+    warnings.simplefilter("ignore")
+    V, C = res["violations"], res["counters"]
+    tc = bool(case["tc"])
+    t = gen_target(rng)
+    res["sig"] = sig_of([t, tc])
+    variants = [("original", t)] + [(k, e) for k, e in edits(t, rng)]
+    rng.shuffle(variants)
+    variants = variants + [variants[0]]      # and back to an earlier definition
+    built = []
+    for n, (kind, e) in enumerate(variants):
+        files, root = surround(e, rng, "plain")
+        w = work / f"r{n}"
+        for rel, text in files.items():
+            q = w / "src" / rel
+            q.parent.mkdir(parents=True, exist_ok=True)
+            q.write_text(text)
+        (w / "out").mkdir(parents=True, exist_ok=True)
+        rc, text = L.compile_closure(w / "src" / root, w / "out", name="out", langs=("py",))
+        if rc != 0:
+            V.append({"mech": "variant_rejected", "detail": f"edit {kind}: {text[-200:]}"})
+            continue
+        modname = f"vf_c13_resend_{os.getpid()}_{case['n']}_{n}"
+        spec = importlib.util.spec_from_file_location(modname, w / "out" / "out.py")
+        mod = importlib.util.module_from_spec(spec)
+        sys.modules[modname] = mod
+        spec.loader.exec_module(mod)
+        built.append((kind, e, getattr(mod, "MDF_" + e["name"])))
+    peer = Peer(tc)
+    c = Client(module_id=0, timecode=tc)
+    try:
+        c.connect(f"127.0.0.1:{peer.port}")
+        peer.hs.join(5)
+        if peer.err:
+            res["inconclusive"] = "peer handshake failed: " + str(peer.err)
+            return res
+        H = 56 if tc else 48
+        for kind, e, cls in built:
+            c.send_message(cls())
+        want = sum(H + ctypes.sizeof(cls) for _, _, cls in built)
+        buf = bytearray()
+        peer.conn.settimeout(5.0)
+        while len(buf) < want:
+            d = peer.conn.recv(1 << 20)
+            if not d:
+                break
+            buf += d
+        frames, left = W.parse_frames(bytes(buf), tc)
+        if len(frames) != len(built):
+            V.append({"mech": "frames_missing", "detail": f"client sent {len(built)} messages, peer parsed {len(frames)} frames"})
+        for f, (kind, e, cls) in zip(frames, built):
+            C["resend_frames_captured"] = C.get("resend_frames_captured", 0) + 1
+            res["nontrivial"] = True
+            res["sets"].setdefault("resend_edit_kinds", []).append(kind)
+            if f.msg_type != cls.type_id:
+                V.append({"mech": "frame_type_mismatch", "detail": f"{cls.__name__}: {f.msg_type}"})
+            elif f.reserved != cls.type_hash:
+                V.append({"mech": "header_version_stale_after_redefinition",
+                          "detail": f"{cls.__name__} after edit '{kind}' sent by a long-lived client: header.version "
+                                    f"{f.reserved:#x} != type_hash {cls.type_hash:#x} of the object sent (timecode={tc})"})
+        return res
+    finally:
+        try:
+            c._sock.close()
+            c._connected = False
+            for h in list(c.logger.logger.handlers):
+                c.logger.logger.removeHandler(h)
+        except Exception:
+            pass
+        peer.shutdown()
 
 
 def run_send(case, res):
